@@ -2,6 +2,7 @@
   C03 — the array set behaves as a sorted set; its slice view is always strictly ascending.
 -/
 import Stevia.Proofs.ArraySetState
+import Stevia.Proofs.ExecInv
 
 namespace Stevia.C03
 open Stevia
@@ -26,6 +27,11 @@ theorem refines_from {key : α → κ} {P : Nat} {s : ASet α} (h : s.Inv key P)
     ∃ s', s.opRun key P ops = .ok (s', (BSorted.run key (min s.slots P) s.view ops).2) ∧ s'.Inv key P ∧
       s'.view = (BSorted.run key (min s.slots P) s.view ops).1 :=
   ASet.opRun_refines h ops
+
+/-- Every state reachable from a zero-filled buffer by inserts, takes, order-preserving updates and
+    buffer growth is well-formed: its view is strictly ascending and every history from it refines. -/
+theorem reachable_view_ascending {key : α → κ} {P : Nat} {d : α} {s : ASet α} (h : ASet.Reach key P d s) :
+    AscK (s.view.map key) ∧ s.len ≤ s.slots := ⟨(ASet.reach_inv h).sorted, (ASet.reach_inv h).len_le⟩
 
 /-- The slice the set dereferences to is strictly ascending in every well-formed state. -/
 theorem view_ascending {key : α → κ} {P : Nat} {s : ASet α} (h : s.Inv key P) : AscK (s.view.map key) := h.sorted
